@@ -1,5 +1,6 @@
 from mindsdb_sql.parser.ast.base import ASTNode
 from mindsdb_sql.parser.utils import indent
+from mindsdb_sql.parser.ast.select.identifier import Identifier
 from typing import List
 
 try:
@@ -98,7 +99,7 @@ class CreateTable(ASTNode):
                     type = str(col.type)
                 if col.length is not None:
                     type = f'{type}({col.length})'
-                col_str = f'{col.name} {type}'
+                col_str = f'{Identifier(parts=[col.name]).to_string()} {type}'
                 if col.nullable is True:
                     col_str += ' NULL'
                 elif col.nullable is False:
